@@ -194,9 +194,8 @@ func (bin *Bin) Remove(binned sts.Binned) {
 	if index < 0 {
 		return
 	}
-	n := len(bin.parts)
-	bin.parts[n-1], bin.parts[index] = bin.parts[index], bin.parts[n-1]
-	bin.parts = bin.parts[:n-1]
+	// Keep the remaining parts in order (the parts of a file are ascending)
+	bin.parts = append(bin.parts[:index], bin.parts[index+1:]...)
 	bin.bytes -= (binned.(*part).end - binned.(*part).beg)
 }
 
